@@ -38,6 +38,9 @@ type World struct {
 	WriteN    int
 	FailExec  int
 	FailWrite int
+	// FailExecErr, if set, is the error the failing ExecContext returns (e.g. one that wraps
+	// driver.ErrBadConn).
+	FailExecErr error
 	// FailWriteIf, if set, makes every write it selects fail (independent of how many writes the
 	// executor makes and when).
 	FailWriteIf func(*migrate.Revision) bool
@@ -55,6 +58,9 @@ func (w *World) ExecContext(_ context.Context, q string, _ ...any) (sql.Result, 
 	w.ExecN++
 	if w.ExecN == w.FailExec {
 		w.Log = append(w.Log, Ev{Kind: "X", Stmt: q, OK: false})
+		if w.FailExecErr != nil {
+			return nil, w.FailExecErr
+		}
 		return nil, errors.New("exec boom")
 	}
 	w.Log = append(w.Log, Ev{Kind: "X", Stmt: q, OK: true})
